@@ -128,6 +128,8 @@ fn run_builder(sc: &Value) -> Value {
                 "cubic_to" => pb.cubic_to(a(1), a(2), a(3), a(4), a(5), a(6)),
                 "close" => pb.close(),
                 "rect" => pb.rect(a(1), a(2), a(3), a(4)),
+                // angles are plain radians given as rationals
+                "arc" => pb.arc(a(1), a(2), a(3), num(&c[4]), num(&c[5])),
                 k => panic!("bad builder call {}", k),
             }
         }
